@@ -47,8 +47,13 @@ def _eval_int_test(e: ast.AST, env: dict[str, Any]) -> bool:
     raise AnalysisError(f'ORIENT: condition {norm(e)} not modelled')
 
 
+_LOCAL_CHUNKS: dict[str, str] = {}     # local names bound to a deep copy of the separators (filled per function by rule_orient)
+
+
 def _chunk_kind(arg: ast.AST, value_var: str) -> Optional[str]:
     t = norm(arg)
+    if isinstance(arg, ast.Name) and arg.id in _LOCAL_CHUNKS:
+        t = _LOCAL_CHUNKS[arg.id]
     if t == f'{value_var}.detach()':
         return 'V'
     if t.startswith('copy.deepcopy(') and 'separators_before' in t:
@@ -102,6 +107,11 @@ def rule_orient(ctx: RuleContext, p: Program, rid: str) -> None:
     if len(loops) != 1:
         raise AnalysisError('ORIENT: chunk loop of _insert_tokens not found')
     index_p, length_p = f.params[1], f.params[3]
+    _LOCAL_CHUNKS.clear()
+    for a in stmts_no_doc(f.node.body):
+        if isinstance(a, ast.Assign) and len(a.targets) == 1 and isinstance(a.targets[0], ast.Name) and norm(a.value).startswith('copy.deepcopy(') \
+                and 'separators' in norm(a.value):
+            _LOCAL_CHUNKS[a.targets[0].id] = norm(a.value)      # whether one copy may be used for several items is SEP-FRESH's business
     n = 0
     for index, length, nv in itertools.product([0, 2], [0, 3], [1, 2, 3]):
         if index and not length:
